@@ -35,7 +35,7 @@ TECHNIQUE = ("Lean 4 proofs by induction over a hand model (hole lists, sections
              "correspondence with the real linker; the property itself is evaluated on real relaxed/unrelaxed link pairs with the Lean "
              "decoders and the Lean RV32 interpreter as oracles")
 RULE = ("corpus of 26 fixed links (C.J edges +-2044..2052, hole accounting, multi-section/multi-image, DEFINESYMBOL, data references, "
-        "no layout, jal with other link registers, the open findings) + generated 'maze' programs (quick 30, thorough 240: 2-9 blocks "
+        "no layout, jal with other link registers, the open findings) + generated 'maze' programs (quick 30, thorough 160: 2-9 blocks "
         "and 0-3 functions scattered over 1-3 objects and 1-3 code sections, gaps around the 2 KiB reach, relaxable and base jumps, "
         "branches, calls, abs/pc-relative data references, 1-2 code memories incl. adjacent ones) + 2 C programs compiled by ppci for "
         "riscv:rvc. evaluation = one (unrelaxed, relaxed) link pair / one decoded reference / one emulated run / one model request; "
@@ -866,7 +866,7 @@ def run_cases(ctx, cases, extra=()):
 
 def check(ctx):
     cases = corpus()
-    n = 240 if ctx.thorough else 30
+    n = 160 if ctx.thorough else 30
     for i in range(n):
         cases.append(gen_case(ctx.rng, i, ctx.thorough))
     for k in range(len(C_SOURCES)):
